@@ -244,6 +244,8 @@ type Exec struct {
 	v         *Verifier
 	lastAfterIns ssa.Instruction // call whose after-clauses were applied by applyContract
 	privCache    map[*ssa.Alloc]bool
+	afterResult  *Val   // result of the call whose after-clauses are being applied
+	selfTerm     string // when a closure is verified as a function: the closure value itself
 	pendingEsc   []Val // the closure being called directly (its captured cells are havocked like an escaping closure's)
 	fn        *ssa.Function
 	con       *Contract
